@@ -12,6 +12,7 @@ import (
 	"time"
 
 	"github.com/corestario/kyber"
+	"github.com/corestario/kyber/encrypt/ecies"
 	bls12381 "github.com/corestario/kyber/pairing/bls12381"
 	dkgped "github.com/corestario/kyber/share/dkg/pedersen"
 	vss "github.com/corestario/kyber/share/vss/pedersen"
@@ -19,6 +20,7 @@ import (
 
 	"github.com/lidofinance/dc4bc/client/types"
 	"github.com/lidofinance/dc4bc/fsm/types/requests"
+	"github.com/lidofinance/dc4bc/storage"
 
 	"verif/harness/vstat"
 	"verif/harness/world"
@@ -176,11 +178,78 @@ type c04ReplayPlan struct {
 	T       int `json:"t"`
 	Machine int `json:"machine"`
 	Replays int `json:"replays"` // restarts (reopen + documented replay of the round's operation log) after the round finished
+	// RefeedDeals: during the ceremony the operator reads the deals operation twice on the running machine (the first
+	// result file got lost on its way); both result files left the machine
+	RefeedDeals bool `json:"refeed_deals,omitempty"`
 }
 
 func c04GenReplay(rt *rapid.T) c04ReplayPlan {
 	n := rapid.IntRange(3, 5).Draw(rt, "n")
-	return c04ReplayPlan{N: n, T: rapid.IntRange(2, n).Draw(rt, "t"), Machine: rapid.IntRange(0, n-1).Draw(rt, "machine"), Replays: rapid.IntRange(2, 5).Draw(rt, "replays")}
+	return c04ReplayPlan{N: n, T: rapid.IntRange(2, n).Draw(rt, "t"), Machine: rapid.IntRange(0, n-1).Draw(rt, "machine"), Replays: rapid.IntRange(2, 5).Draw(rt, "replays"),
+		RefeedDeals: rapid.Bool().Draw(rt, "refeedDeals")}
+}
+
+// schnorrSig is one Schnorr signature (R, s) a machine made with its long-term DKG key, wherever it was found.
+type schnorrSig struct {
+	R, S  []byte
+	Where string
+}
+
+func splitSchnorr(sig []byte, where string) (schnorrSig, bool) {
+	if len(sig) <= 32 {
+		return schnorrSig{}, false
+	}
+	return schnorrSig{R: sig[:len(sig)-32], S: sig[len(sig)-32:], Where: where}, true
+}
+
+// dealSignatures opens the deals of a deals result with their addressees' keys and returns the Schnorr signatures in them
+// (the dealer signs the deal as a whole and the Diffie-Hellman key inside it).
+func dealSignatures(w *world.World, secKeys []kyber.Scalar, msgs []storage.Message, where string) (out []schnorrSig) {
+	base := bls12381.NewBLS12381Suite(nil)
+	for _, m := range msgs {
+		if m.Event != "event_dkg_deal_confirm_received" {
+			continue
+		}
+		var req requests.DKGProposalDealConfirmationRequest
+		if json.Unmarshal(m.Data, &req) != nil || len(req.Deal) < 64 || m.RecipientAddr == m.SenderAddr {
+			continue // (a participant's confirmation to itself carries no deal)
+		}
+		for j := range w.Names {
+			if w.Names[j] != m.RecipientAddr {
+				continue
+			}
+			plain, err := ecies.Decrypt(base, secKeys[j], req.Deal, base.Hash)
+			var d dkgped.Deal
+			if err != nil || json.Unmarshal(plain, &d) != nil {
+				continue
+			}
+			if s, ok := splitSchnorr(d.Signature, where+", deal for "+m.RecipientAddr); ok {
+				out = append(out, s)
+			}
+			if d.Deal != nil {
+				if s, ok := splitSchnorr(d.Deal.Signature, where+", key exchange of the deal for "+m.RecipientAddr); ok {
+					out = append(out, s)
+				}
+			}
+		}
+	}
+	return out
+}
+
+// nonceReuse looks for two signatures with the same nonce commitment R and different s: they were made over different
+// messages, and the signer's private key follows from them.
+func nonceReuse(sigs []schnorrSig) (a, b schnorrSig, found bool) {
+	byR := map[string]schnorrSig{}
+	for _, s := range sigs {
+		if prev, ok := byR[string(s.R)]; ok {
+			if !bytes.Equal(prev.S, s.S) {
+				return prev, s, true
+			}
+			continue
+		}
+		byR[string(s.R)] = s
+	}
+	return schnorrSig{}, schnorrSig{}, false
 }
 
 type signedResponse struct {
@@ -243,6 +312,22 @@ func c04RunReplay(t *testing.T, st *vstat.Stats, p c04ReplayPlan) (v *viol) {
 			return
 		}
 		defer w.Close()
+		var all []schnorrSig // every signature of the machine's long-term key that left it, in any file
+		var secKeys []kyber.Scalar
+		var lostDeals []storage.Message
+		if p.RefeedDeals {
+			w.OnOperation = func(i int, op *types.Operation, file []byte) {
+				if i != p.Machine || string(op.Type) != "state_dkg_deals_await_confirmations" {
+					return
+				}
+				if res, err := w.Machines[i].Process(file); err == nil {
+					var first types.Operation
+					if json.Unmarshal(res, &first) == nil {
+						lostDeals = first.ResultMsgs // the first reading's result file: written, carried away, lost
+					}
+				}
+			}
+		}
 		round, err := w.StartDKG(0, p.T, nil)
 		if err == nil {
 			err = w.Quiesce(80)
@@ -251,9 +336,32 @@ func c04RunReplay(t *testing.T, st *vstat.Stats, p c04ReplayPlan) (v *viol) {
 			v = violf("harness", "ceremony: %v", err)
 			return
 		}
+		w.OnOperation = nil
+		for _, mm := range w.Machines {
+			sk, _, _ := mm.M.VerifSecrets(round)
+			secKeys = append(secKeys, sk)
+		}
 		suite := bls12381.NewBLS12381Suite(nil)
 		m := w.Machines[p.Machine]
 		pub := m.M.GetPubKey()
+		all = append(all, dealSignatures(w, secKeys, lostDeals, "result file of the first reading of the deals operation")...)
+		for _, bm := range w.Board.All() {
+			if bm.DkgRoundID != round || bm.SenderAddr != w.Names[p.Machine] {
+				continue
+			}
+			all = append(all, dealSignatures(w, secKeys, []storage.Message{bm}, fmt.Sprintf("board message %d", bm.Offset))...)
+			for _, sr := range signedResponses(suite, bm.Data, fmt.Sprintf("board message %d", bm.Offset)) {
+				if bm.Event == "event_dkg_response_confirm_received" {
+					if s, ok := splitSchnorr(sr.Sig, sr.Where+fmt.Sprintf(", response about dealer %d", sr.About)); ok {
+						all = append(all, s)
+					}
+				}
+			}
+		}
+		if a, b, found := nonceReuse(all); found {
+			v = violf("nonce-signs-two-messages", "n=%d t=%d participant %d (deals operation read twice: %v): two signatures of its long-term DKG key share their nonce (R=%x…) but not their value: %s | %s - the private key follows from the pair", p.N, p.T, p.Machine, p.RefeedDeals, a.R[:8], a.Where, b.Where)
+			return
+		}
 		var seen []signedResponse
 		for _, bm := range w.Board.All() {
 			if bm.DkgRoundID == round && bm.Event == "event_dkg_response_confirm_received" && bm.SenderAddr == w.Names[p.Machine] {
@@ -294,9 +402,17 @@ func c04RunReplay(t *testing.T, st *vstat.Stats, p c04ReplayPlan) (v *viol) {
 				if err != nil || json.Unmarshal(bz, &op) != nil || op.DKGIdentifier != round {
 					continue
 				}
+				where := fmt.Sprintf("result file %s rewritten by replay %d", e.Name(), k+1)
+				all = append(all, dealSignatures(w, secKeys, op.ResultMsgs, where)...)
 				for _, rm := range op.ResultMsgs {
 					if rm.Event == "event_dkg_response_confirm_received" {
-						fresh = append(fresh, signedResponses(suite, rm.Data, fmt.Sprintf("result file %s rewritten by replay %d", e.Name(), k+1))...)
+						rs := signedResponses(suite, rm.Data, where)
+						fresh = append(fresh, rs...)
+						for _, sr := range rs {
+							if s, ok := splitSchnorr(sr.Sig, where+fmt.Sprintf(", response about dealer %d", sr.About)); ok {
+								all = append(all, s)
+							}
+						}
 					}
 				}
 			}
@@ -308,11 +424,18 @@ func c04RunReplay(t *testing.T, st *vstat.Stats, p c04ReplayPlan) (v *viol) {
 				v = vv
 				return
 			}
+			if a, b, found := nonceReuse(all); found {
+				v = violf("nonce-signs-two-messages", "n=%d t=%d participant %d (deals operation read twice during the ceremony: %v), after restart %d with the documented replay: two signatures of its long-term DKG key share their nonce (R=%x…) but not their value: %s | %s - the private key follows from the pair", p.N, p.T, p.Machine, p.RefeedDeals, k+1, a.R[:8], a.Where, b.Where)
+				return
+			}
 			seen = append(seen, fresh...)
 		}
 		st.Class("replay-nonces:no-nonce-signs-two-messages")
-		st.NonTrivial(fmt.Sprintf("replaynonce/%d/%d/%d/%d", p.N, p.T, p.Machine, p.Replays))
-		st.SampleEvery(10, map[string]any{"n": p.N, "t": p.T, "machine": p.Machine, "restarts_with_replay": p.Replays, "signed_responses_compared": len(seen)})
+		if p.RefeedDeals {
+			st.Class("replay-nonces:deals-operation-read-twice")
+		}
+		st.NonTrivial(fmt.Sprintf("replaynonce/%d/%d/%d/%d/%v", p.N, p.T, p.Machine, p.Replays, p.RefeedDeals))
+		st.SampleEvery(10, map[string]any{"n": p.N, "t": p.T, "machine": p.Machine, "restarts_with_replay": p.Replays, "signed_responses_compared": len(seen), "schnorr_signatures_collected": len(all), "deals_operation_read_twice": p.RefeedDeals})
 	})
 	return v
 }
